@@ -1098,6 +1098,7 @@ JSTRIDE1, JSTRIDE2, JSTRIDE_OPEN = (96, 16), (192, 48), 32
 # then the plain reopen (= the restore) from every distinct state a kill of it leaves
 SHAPE_FLOW1, SHAPE_FLOW2 = "BOC", "C"
 SHAPE_STRIDE1, SHAPE_STRIDE2 = 16, 32
+SHAPE_STRIDE_T = (4, 12)
 
 
 def is_shape_sid(sid) -> bool:
@@ -1134,7 +1135,9 @@ def real_sweeps(thorough: bool, o: Outcome | None = None, flows1=None, shapes=No
                 start_result(root, starts, ov, sid)
                 if okey(starts[sid]["result"]["obs"]) != base_key:
                     raise RuntimeError("start state of path shape differs from the base database: " + json.dumps(starts[sid]["result"]["obs"]))
-                plan1.append((sid, SHAPE_FLOW1, GENS[0], None if thorough else SHAPE_STRIDE1))
+                # (thorough: more shapes and a finer stride, not every line - every line around each change of
+                # the files is killed anyway, and every gap whose ends differ in file state is filled)
+                plan1.append((sid, SHAPE_FLOW1, GENS[0], SHAPE_STRIDE_T[0] if thorough else SHAPE_STRIDE1))
                 _PROBES.append(probe_tempdir_close(root, sh, sib_seed))
         if not flows1 and not only_shapes and not os.environ.get("C11_TIMING_NOJ"):
             # journal dimension: the dedicated flow from an existing empty file and from a rollback-mode
@@ -1192,7 +1195,7 @@ def real_sweeps(thorough: bool, o: Outcome | None = None, flows1=None, shapes=No
         js = None if thorough else JSTRIDE2
         plan2 = [(n, f, GENS[1], None) for n in sorted(x for x in starts if isinstance(x, int) and x != 0) for f in flows2]
         plan2 += [(n, JFLOW, JGENS[3], js) for n in sorted(x for x in starts if isinstance(x, str) and x[1:].isdigit())]
-        plan2 += [(n, SHAPE_FLOW2, GENS[1], None if thorough else SHAPE_STRIDE2) for n in sorted(x for x in starts if is_shape_sid(x) and "#" in x)]
+        plan2 += [(n, SHAPE_FLOW2, GENS[1], SHAPE_STRIDE_T[1] if thorough else SHAPE_STRIDE2) for n in sorted(x for x in starts if is_shape_sid(x) and "#" in x)]
         counts = pmap(exec_tasks, [(n, f, g, 0, None) for n, f, g, _ in plan2])
         sweeps2 = []
         for (n, f, g, s_), c in zip(plan2, counts):
@@ -1231,6 +1234,16 @@ def run(tier: str) -> int:
         t_ph[0] = time.time()
 
     o.extra["phase_s"] = ph
+    kinds: dict = {}
+    o.extra["drift_kinds"] = kinds
+    _nd = o.note_drift
+
+    def note_drift(item):
+        w_ = str(item.get("why") or item.get("what") or "?") if isinstance(item, dict) else str(item)
+        kinds[w_[:60]] = kinds.get(w_[:60], 0) + 1
+        _nd(item)
+
+    o.note_drift = note_drift
     shapes = path_shapes(o, thorough)
     phase("tlc_paths")
     starts, sweeps1, sweeps2, base_key = real_sweeps(thorough, o, shapes=shapes)
